@@ -52,6 +52,14 @@ CHECKS = {
   "Generated purge-heavy histories with drop/reopen cycles under generated worker schedules: the last flush is stepped exactly to its callback, the store is dropped on a helper thread, the old worker's remaining gated calls are placed around the new instance's open/purge/flush; the trace must show no mutation by a dropped instance after its drop returned, open must show the acknowledged state, and the new instance must keep completing flushes.",
   "Same-process reopen; placement granularity = gated file-system calls of the old worker vs operations of the new instance.",
   "property-based testing (proptest): stateful model-based over generated schedules (gated worker), trace invariant", "DESIGN.md §4 C14"),
+ "C09": ("fault_enumeration",
+  "Per generated settled image: every byte of every complete record x replacement values (quick: bit flips + 0x00/0xFF/+-1 with a stride sub-sample above 4 000 pairs; thorough: all 255 values, 150 000 pairs) and every middle chunk removed; each mutated image is opened with the real store (cache 0, so entries are read back from disk). Outcome must be Err or identical contents, never a panic; non-newest files untouched after a refused open. Mutations classified by field with the reference decoder.",
+  "Single-byte corruption; two known classes (record overruns to end of file: silent truncation of the newest chunk / truncation of an older chunk by a refused open) are reported as KNOWN-FINDING and counted.",
+  "property-based testing (proptest) for images + exhaustive/strided single-byte fault enumeration, differential against the unmutated store", "DESIGN.md §4 C09"),
+ "C10": ("fault_enumeration",
+  "Per generated settled image and both truncate_incomplete_record settings: every cut of the newest chunk and every zero tail from a record boundary (stride sub-sample above the budget, boundaries always included); oracle = reference replay of exactly the complete records present; sampled recovered stores continue under the model (writes, restart, acknowledged flush); with truncation off non-boundary images must be refused with all files untouched.",
+  "Record boundaries and expected state from the reference decoder.",
+  "property-based testing (proptest) for images + exhaustive/strided tail-fault enumeration, reference-replay oracle", "DESIGN.md §4 C10"),
 }
 
 ALL = [f"C{i:02d}" for i in range(1, 17)]
